@@ -144,6 +144,21 @@ def run(ck, repo):
               'C18.3-representable', 'charge-range', bounds,
               f'charge setter admits {bounds}, matcher field holds {lay["charge_window"]}, pack field holds -4..11',
               file=setter.file, line=setter.lineno, func=setter.qualname)
+    # the documented charge domain itself: every formal charge -4..+4 is constructible (and nothing outside it), for atoms and for query atoms alike
+    ck.decide(bounds == (-4, 4), 'C18.3-representable', 'charge-domain', bounds,
+              f'Element.charge admits {bounds}; the documented domain (error message, pack and matcher layouts) is -4..+4: charges outside the admitted '
+              f'interval cannot be constructed at all', file=setter.file, line=setter.lineno, func=setter.qualname)
+    qsetter = None
+    qm = repo.module('chython.periodictable.base.query')
+    for qc in (qm.classes.values() if qm else ()):
+        g_ = qc.method('charge', setter=True)
+        if g_ is not None:
+            qsetter = g_
+    if qsetter is not None:
+        qb = charge_bounds(qsetter)
+        ck.decide(qb == bounds, 'C18.3-representable', 'charge-domain:query==atom', qb,
+                  f'query atoms admit charges {qb}, atoms {bounds}: a charge constructible on one side cannot be expressed on the other', file=qsetter.file, line=qsetter.lineno,
+                  func=qsetter.qualname)
     numbers = {s: r['atomic_number'] for s, r in rows.items()}
     maxh = 0
     who = None
@@ -339,6 +354,7 @@ def isotope_windows(ck, repo, R):
     setter = repo.cls('chython.periodictable.base.element:Element').method('charge', setter=True)
     cb = charge_bounds(setter)
     ck.decide(cb is not None and 0 <= cb[0] + 4 and cb[1] + 4 <= 15, R, 'charge', cb, f'charge range {cb} + 4 does not fit 4 bits', file=setter.file, line=setter.lineno)
+    ck.decide(cb == (-4, 4), R, 'charge-domain', cb, f'Element.charge admits {cb}; the pack format documents charges -4..+4 (stored as charge + 4): the admitted interval must be exactly that', file=setter.file, line=setter.lineno)
     numbers = {s: r['atomic_number'] for s, r in t.rows.items()}
     maxh = 0
     for row in t.rows.values():
